@@ -242,6 +242,12 @@ def plans(world, info, seed, tier):
         cnt = rng.randint(2, 3)
         pos = sorted(set(max(0, n - 1 - rng.randint(0, 2)) if rng.random() < 0.6 else rng.randrange(n) for _ in range(cnt)))
         specs.append(mk([_fault(rng, j, rng.choice(KINDS)) for j in pos], tag="multi"))
+    # a solve() that succeeded earlier on the same object, then one with a fault: what the getters say afterwards is
+    # either the proven answer or nothing
+    for _ in range(3 if tier == "quick" else 2 * n):
+        sp = mk([_fault(rng, rng.randrange(n), rng.choice(KINDS))], reply=rng.choice(["canonical", "alt"]), tag="resolve")
+        sp["solve_first"] = True
+        specs.append(sp)
     # slow latency: the budget runs out at a seeded point
     for lat in (["realistic", "slow", "slow"] if tier == "thorough" else ["slow"]):
         specs.append(mk([], latency=lat, tag="latency"))
@@ -363,6 +369,41 @@ def check_run(world, out, ref, faults_fired):
     return vs
 
 
+def check_resolve(world, out, ref, faults_fired):
+    """A second solve() on an object whose first solve() ran undisturbed.  The object may keep its proven answer or
+    lose it; it may not report solved with another answer, and may not hand out data while reporting not solved."""
+    cname = world["class"]
+    vs = []
+
+    def V(clause, detail):
+        vs.append(Violation(ID, "C13." + clause, cname, dict(detail, plan="solve, then solve with a fault")))
+    if out["system_exit"]:
+        V("system_exit", {"where": out.get("where")})
+        return vs
+    if out["hang"]:
+        V("hang", {"invocations": len(out["invocations"])})
+        return vs
+    post = out.get("post") or {}
+    solved = bool(post.get("solved"))
+    usable_ref = cname != "NumPathsOptimization" and ref is not None and not ref.get("solve_exc")
+    if not solved:
+        # several classes keep the solution of the first, undisturbed solve() in a cache that get_solution() serves
+        # while is_solved() is already False again: that data is the proven answer.  Anything else is unproven data.
+        if post.get("objective") is not None and usable_ref:
+            if not (ref["solved"] and _same_answer(world, post.get("objective"), ref["objective"])):
+                V("data_when_unsolved", {"getter": "get_objective_value", "objective": post.get("objective"),
+                                         "reference": ref.get("objective"), "solve_exc": out.get("solve_exc")})
+    elif usable_ref and post.get("objective") is not None:
+        # (no objective: the getters raised - nothing was handed out)
+        if ref["solved"] and not _same_answer(world, post.get("objective"), ref["objective"]):
+            V("wrong_answer", {"objective": post.get("objective"), "reference": ref["objective"]})
+        elif not ref["solved"]:
+            V("wrong_answer", {"objective": post.get("objective"), "reference": "unsolved"})
+    if out.get("alarm_armed_after"):
+        V("alarm_left_armed", {})
+    return vs
+
+
 def execute(spec):
     world = spec["world"]
     _apply_knobs(world)
@@ -387,9 +428,15 @@ def execute(spec):
             hooks = {"after_construct": _decoy}
         if spec.get("retry", True):
             hooks = dict(hooks or {}, retry=True)
+        if spec.get("solve_first"):
+            hooks = dict(hooks or {}, solve_first=True)
+            cap = 2 * cap
         out, w, _ = simrun.run_world(world, spec["sim"], seed=seed, step_cap=cap, hooks=hooks)
         fired = sum(out["fired"].values())
-        vs += check_run(world, out, ref if not ref_out["system_exit"] else None, fired > 0)
+        if spec.get("solve_first"):
+            vs += check_resolve(world, out, ref if not ref_out["system_exit"] else None, fired > 0)
+        else:
+            vs += check_run(world, out, ref if not ref_out["system_exit"] else None, fired > 0)
         # 6: recovery - a fresh fault-free run in the same process reproduces the reference
         rec_out, _, _ = simrun.run_world(world, REF_SIM, seed=0, step_cap=200)
         rec = _summary(rec_out)
